@@ -2,7 +2,8 @@
 
 Histories of parseable bursts (library-serialised PDU -> Burst -> as_bytes -> Burst.from_bytes; voice bursts from a sync
 pattern or an EMB word plus hash-expanded vocoder bits) are fed to one Terminal (two timeslots).  Observers: terminal level
-[raiser, recorder]; per timeslot [terminal, recorder, raiser, recorder].  After every burst the runner checks the
+[raiser, recorder, raiser]; per timeslot [terminal, recorder, raiser, recorder]; a raiser raises (when switched on) from every
+callback or from one callback kind only, one of 7 exception types.  After every burst the runner checks the
 invariants I1..I7 (see RULE).  While a runner lives ``secrets.token_bytes`` (on the real ``secrets`` module, and every name
 in an okdmr.dmrlib module namespace that is bound to that function) is replaced by a counter, so that "fresh stream id" is
 exact; a probe verifies that the library's stream ids really come from the counter, otherwise freshness is judged against
@@ -16,12 +17,18 @@ from vp.core import Ctx, Fail, HarnessError, SubCheck, Tally, lib_raised, make_m
 
 LEVEL = "exploration"
 RULE = (
-    "history = list of ops; op = one burst of the property's alphabet {voice LC header (group/unit), terminator with LC, "
+    "history = list of ops; op = one burst of the property's alphabet {voice LC header / terminator with LC (Full LC: group, "
+    "unit-to-unit, and the rare variants the parser accepts: GPS info, talker alias header / blocks 1-3 with arbitrary octets - "
+    "text in the four alias encodings incl. octets >= 0x80, fills, random), "
     "voice burst with one of the 4 voice syncs, voice burst with EMB, data header (confirmed / unconfirmed / response / "
     "defined short data / UDT; blocks-to-follow 0..6, 127; SAP incl. UDP/IP compression), preamble CSBK (blocks-to-follow "
-    "0..8, 255), other CSBK (5 opcodes), rate 1/2, 3/4, 1 data block (octets biased to 00/80/FF)} on timeslot 1 or 2 "
-    "(optionally repeated n times), or a toggle that makes the terminal-level / a timeslot-level observer raise from "
-    "every callback.  Histories come from a Hypothesis RuleBasedStateMachine; half of them start with a scripted prefix "
+    "0..8, 255), other CSBK (5 opcodes built field by field; 'raw pool': every CSBK opcode and every data packet format the "
+    "parser accepts, 4 hash-expanded 96-bit patterns each, octets biased to 00/FF/80/C5), rate 1/2, 3/4, 1 data block (octets "
+    "biased to 00/80/FF)} on timeslot 1 or 2 "
+    "(optionally repeated n times), or a toggle that switches a raising observer (terminal level before the recorder - on by "
+    "default -, terminal level behind the recorder, timeslot level between two recorders) on / off, selects the callback kind "
+    "it raises from (all / started / data_ended / voice_ended) and the exception (a plain Exception subclass, ValueError, "
+    "KeyError, AssertionError, UnicodeDecodeError, StopIteration, an exception whose str() raises).  Histories come from a Hypothesis RuleBasedStateMachine; half of them start with a scripted prefix "
     "(complete / truncated data call with preambles, complete / open voice call header, sync, EMB bursts, terminator, "
     "a >256-burst voice run, raiser toggles).  Invariants after every burst: I1 process_incoming_burst does not raise; "
     "I2 every *_ended closes a started notification of the same kind on that timeslot that is still open; I3 its header "
@@ -38,7 +45,10 @@ RULE = (
     "bursts on one timeslot before the first ended, then the end and a second call.  'near_sync' places valid EMB bursts whose 48 centre bits are at Hamming distance 1..3 from each of the 10 SYNC words at "
     "every position B..F of a superframe (such bursts are also a machine rule and part of the scripted voice calls); 'repeats' "
     "runs each burst class 300 times in each tracker mode and 2-3 op blocks N times (N up to 300; the machine has a repeat rule "
-    "with the same counts).  In about half of all histories (every "
+    "with the same counts).  'raising_observers' hands every rare header / block variant (72 Full LCs, 25 data headers, "
+    "every raw-pool CSBK) over in an ended notification under each of 13 raiser configurations, followed by ordinary calls.  "
+    "Machine histories that held are judged again (every 8th) after the history's own bursts went through repr / str, "
+    "another terminal and a TransmissionWatcher (prelude_for).  In about half of all histories (every "
     "sub-check) the parsed Burst objects are stamped, before they are fed, with the metadata a transport adapter "
     "(Burst.from_hytera_ipsc / from_mmdvm) sets: a hash-derived sequence_no 0..255, a non-empty (mostly already used) "
     "stream_no, radio ids, timeslot; ops may also feed the same Burst object again (it then carries the library's own "
@@ -49,8 +59,17 @@ ASSUMPTIONS = [
     "'parseable' bursts are the ones Burst.from_bytes accepts with the burst type its caller knows from the transport "
     "framing (Vocoder for voice bursts, DataAndControl otherwise); bursts are serialised by the library itself.  Not in the "
     "property's alphabet and not generated: PI header, MBC, idle, USBD bursts, data bursts with a reserved data type, "
-    "vocoder bursts carrying the 'reserved' or the MS-sourced RC sync pattern, link-control opcodes other than "
-    "group/unit-to-unit voice channel user, data packet formats / CSBK opcodes whose parser raises NotImplementedError",
+    "vocoder bursts carrying the 'reserved' or the MS-sourced RC sync pattern, link-control opcodes whose parser raises "
+    "(terminator data link control, undefined values), data packet formats / CSBK opcodes whose parser raises NotImplementedError",
+    "a burst of data type voice LC header / terminator with LC that carries a Full LC the library's parser accepts - GPS info, "
+    "talker alias header / block with arbitrary octets - is a parseable burst of the alphabet's classes 'voice LC header' / "
+    "'terminator' (Burst.from_bytes accepts it, the tracker opens / ends a voice transmission with it and hands the PDU over); "
+    "on the air such LCs travel embedded in voice bursts, the statement quantifies over parseable bursts, not over conformant "
+    "transmitters.  FIDs generated for them: 0x00, 0x10, 0x08",
+    "raising observers are inside the domain (statement: 'an observer that raises never prevents other observers or later "
+    "events'; quantifier: 'observers that do or do not raise'): they are registered through the constructor / add_observer like "
+    "the recorders and raise Exception subclasses only (not KeyboardInterrupt / SystemExit / GeneratorExit); with them "
+    "registered processing must not fail either, and the recorders must still see the well-formed event stream",
     "I2/I3 are read existentially: an ended notification must match *some* still-open started notification of its kind on "
     "that timeslot (the statement does not say that a new start abandons older ones); the header may be any header of "
     "that kind received since that start",
@@ -82,6 +101,13 @@ SAPS = ["UDP_IP_compression", "IP_PacketData", "ShortData", "Proprietary", "TCP_
 CSBK_KINDS = ["bs_down", "timing", "hytera", "aloha", "uu_req"]
 RATES = {"1/2": 12, "3/4": 18, "1": 24}
 BURST_KINDS = ("vhdr", "term", "vsync", "vemb", "dhdr", "pre", "csbk", "data")
+RARE_FLCOS = {"gps": "GPSInfo", "ta_hdr": "TalkerAliasHeader", "ta_b1": "TalkerAliasBlock1", "ta_b2": "TalkerAliasBlock2", "ta_b3": "TalkerAliasBlock3"}
+ALL_FLCOS = ["group", "unit"] + sorted(RARE_FLCOS)
+RAISE_WHAT = ["all", "started", "data_ended", "voice_ended"]
+RAISE_EXC = ["boom", "value", "key", "assert", "unicode", "stop", "badstr"]
+# 7 octets for the 56 information bits of a rare Full LC: 7-bit text, UTF-8 / ISO 8-bit / UTF-16-LE text with octets >= 0x80, fills
+LC_OCTETS = ["4f4b31444d5220", "c5bd6f66696520", "c5bd6c75c5a56f", "e9e8e0fce4f6df", "7d01610069006500"[:14], "fffe410042000a", "00" * 7, "ff" * 7, "80" + "00" * 6, "00" * 6 + "80", "7f" * 7,
+             "41" * 6 + "c3", "efbbbf4f4b3144", "0d0a0009001b7e"]
 
 
 def _h(x, n):
@@ -154,25 +180,54 @@ class _Lib:
             class ObserverBoom(Exception):
                 pass
 
+            class ObserverBoomBadStr(Exception):
+                """an exception object that cannot be formatted"""
+
+                def __str__(self):
+                    raise ObserverBoom("str() of the observer's exception raises")
+
+                __repr__ = __str__
+
+            def make_exc(kind, msg):
+                if kind == "value":
+                    return ValueError(msg)
+                if kind == "key":
+                    return KeyError(msg)
+                if kind == "assert":
+                    return AssertionError(msg)
+                if kind == "unicode":
+                    return UnicodeDecodeError("ascii", b"\xc5\xbd", 0, 1, msg)
+                if kind == "stop":
+                    return StopIteration(msg)
+                if kind == "badstr":
+                    return ObserverBoomBadStr(msg)
+                return ObserverBoom(msg)
+
             class Raiser(TransmissionObserverInterface):
+                """raises (when switched on) from every callback, or from one callback kind only (``what``)"""
+
                 def __init__(self, name, on):
                     self.name = name
                     self.on = on
+                    self.what = "all"  # all | started | data_ended | voice_ended
+                    self.exc = "boom"  # see make_exc
                     self.fired = 0
+                    self.fired_in = set()
 
                 def _boom(self, what):
-                    if self.on:
+                    if self.on and self.what in ("all", what):
                         self.fired += 1
-                        raise ObserverBoom(f"{self.name} raises from {what}")
+                        self.fired_in.add(what)
+                        raise make_exc(self.exc, f"{self.name} raises from {what}")
 
                 def transmission_started(self, transmission_type):
-                    self._boom("transmission_started")
+                    self._boom("started")
 
                 def data_transmission_ended(self, transmission_header, blocks):
-                    self._boom("data_transmission_ended")
+                    self._boom("data_ended")
 
                 def voice_transmission_ended(self, voice_header, blocks):
-                    self._boom("voice_transmission_ended")
+                    self._boom("voice_ended")
 
             real_token_bytes = real_secrets_module.token_bytes
             if getattr(real_token_bytes, "_vp_counter", False):
@@ -220,7 +275,26 @@ def _build_burst(op):
         return full.tobytes(), "Vocoder"  # the 33 octets as they come off the air (on /repo identical to Burst(full).as_bytes())
 
     DT = L["DataTypes"]
-    if k in ("vhdr", "term"):
+    if k in ("vhdr", "term") and op.get("flco", "group") in RARE_FLCOS:
+        # rare Full LC variants in a voice LC header / terminator burst: GPS info, talker alias header / blocks with arbitrary
+        # octets.  Laid out by hand (9.1.6: PF, R, FLCO, FID, 56 bits, 24 check bits), typed by the library's parser.
+        lc = bytes.fromhex(op.get("lc", "00" * 7))
+        if len(lc) != 7:
+            raise HarnessError(f"LC op with {len(lc)} octets")
+        bits = bitarray([op.get("pf", 0) & 1, 0]) + L["FLCOs"][RARE_FLCOS[op["flco"]]].as_bits() + int2ba([0x00, 0x10, 0x08][x % 3], length=8)
+        payload = bitarray()
+        payload.frombytes(lc)
+        pdu = L["FullLinkControl"].from_bits(bits + payload + int2ba(op.get("crc", 0) & 0xFFFFFF, length=24))
+        dt = DT.VoiceLCHeader if k == "vhdr" else DT.TerminatorWithLC
+    elif k in ("csbk", "dhdr") and "bits" in op:
+        # rare variants of a CSBK / data header: 96 information bits typed by the library's parser (see raw_pdu_pool)
+        raw = bitarray()
+        raw.frombytes(bytes.fromhex(op["bits"]))
+        if len(raw) != 96:
+            raise HarnessError(f"raw PDU op with {len(raw)} bits")
+        pdu = (L["CSBK"] if k == "csbk" else L["DataHeader"]).from_bits(raw)
+        dt = DT.CSBK if k == "csbk" else DT.DataHeader
+    elif k in ("vhdr", "term"):
         unit = op.get("flco", "group") == "unit"
         so = L["ServiceOptions"].from_bits(int2ba(op.get("so", 0) & 0xFF, length=8))
         kw = dict(target_address=1 + (x % 0xFFFFFF)) if unit else dict(group_address=1 + (x % 0xFFFFFF))
@@ -304,6 +378,78 @@ def _build_burst(op):
 
 def _bits01(o):
     return o.as_bits().to01()
+
+
+_RAW_POOL = {}
+
+
+def raw_pdu_pool(per_variant=4):
+    """{"csbk": [(96 bits as hex, opcode name)], "dhdr": [(hex, format name)]}: rare variants of the two 96-bit PDU classes of
+    the alphabet that carry an opcode / format field.  For every value of the 6-bit CSBK opcode and of the 4-bit data packet
+    format, ``per_variant`` hash-expanded bit patterns (octets biased to 00 / FF / 80 / non-ASCII) are offered to the
+    library's parser; kept are those it accepts and whose burst survives as_bytes -> from_bytes on this tree (everything else is
+    not a parseable burst).  Deterministic; the kept patterns are stored in the cases, so replays do not depend on the pool."""
+    if "v" in _RAW_POOL:
+        return _RAW_POOL["v"]
+    L = _Lib.get()
+    bitarray, int2ba = L["bitarray"], L["int2ba"]
+    out = {"csbk": [], "dhdr": []}
+    for kind, cls, field, width in (("csbk", L["CSBK"], slice(2, 8), 6), ("dhdr", L["DataHeader"], slice(4, 8), 4)):
+        for value in range(1 << width):
+            kept = 0
+            implemented = True
+            for j in range(600):
+                # variants whose parser rejects most field values (undefined reason codes ...) get more attempts; variants the
+                # parser does not implement at all get 24
+                if kept >= per_variant or (j >= per_variant * 6 and not implemented):
+                    break
+                body = bytearray(_h(("raw", kind, value, j), 12))
+                for i in range(12):  # bias: a third of the octets become 00 / FF / 80 / C5
+                    sel = body[i] % 12
+                    if sel < 4:
+                        body[i] = (0x00, 0xFF, 0x80, 0xC5)[sel]
+                bits = bitarray()
+                bits.frombytes(bytes(body))
+                bits[field] = int2ba(value, length=width)
+                if kind == "csbk":
+                    bits[8:16] = int2ba((0x00, 0x10, 0x08, 0x68)[j % 4], length=8)  # FID: standard / Motorola / Hytera(08) / Hytera(68)
+                    if j % 2 == 0:
+                        bits[0] = 1  # last block: the usual single-block CSBK
+                op = {"k": kind, "bits": bits.tobytes().hex(), "cc": 1, "x": j}
+                try:
+                    try:
+                        pdu = cls.from_bits(bits)
+                    except ValueError:
+                        continue
+                    except Exception:
+                        implemented = False
+                        continue
+                    implemented = True
+                    raw, btype = _build_burst(op)
+                    back = L["Burst"].from_bytes(raw, burst_type=L["BurstTypes"][btype])
+                    if not isinstance(back.data, cls):
+                        continue
+                    name = getattr(getattr(pdu, "csbko", None) if kind == "csbk" else getattr(pdu, "data_packet_format", None), "name", str(value))
+                except Exception:
+                    continue
+                out[kind].append((op["bits"], name))
+                kept += 1
+    _RAW_POOL["v"] = out
+    return out
+
+
+BTF_AT_65 = ("DataPacketConfirmed", "DataPacketUnconfirmed", "ResponsePacket")  # formats with blocks-to-follow in bits 65..71
+
+
+def raw_header_with_btf(bits_hex, fmt_name, btf):
+    """the raw data header with its blocks-to-follow field set to ``btf`` (formats that carry it in bits 65..71; others and
+    btf None: unchanged)"""
+    if btf is None or fmt_name not in BTF_AT_65:
+        return bits_hex
+    v = int(bits_hex, 16)
+    shift = 96 - 72
+    v = (v & ~(0x7F << shift)) | ((btf & 0x7F) << shift)
+    return "%024x" % v
 
 
 # ---------------------------------------------------------------------------------------------- deterministic stream ids
@@ -433,7 +579,8 @@ class Runner:
         try:
             self.t_raiser = L["Raiser"]("terminal-raiser", True)
             self.t_rec = L["Recorder"]("terminal-recorder")
-            self.term = L["Terminal"](self.DMRID, [self.t_raiser, self.t_rec])
+            self.t_raiser2 = L["Raiser"]("terminal-raiser-behind-recorder", False)
+            self.term = L["Terminal"](self.DMRID, [self.t_raiser, self.t_rec, self.t_raiser2])
             self.ts_rec0, self.ts_rec1, self.ts_raiser = {}, {}, {}
             for ts in (1, 2):
                 self.ts_rec0[ts] = L["Recorder"](f"ts{ts}-recorder-before-raiser")
@@ -467,8 +614,9 @@ class Runner:
         # statistics
         self.stats = {"ended_voice": 0, "ended_data": 0, "interruptions": 0, "labels_checked": 0, "full_superframe_wrap": 0, "seq_wrap": 0,
                       "ended_data_blocks_max": 0, "ended_with_raiser_on": 0, "restart_checked": 0, "ended_then_started_same_call": 0, "voice_ended_with_blocks": 0,
-                      "started_idle": 0}
+                      "started_idle": 0, "ended_with_rare_pdu_variant": 0}
         self.used_ts = set()
+        self.rare = set()  # bits of the rare PDU variants fed so far (statistics only)
         self.inbound = None  # None = pristine Burst.from_bytes objects; int salt = stamp transport-side metadata before feeding
         self.n_fed = 0
         self.n_stamped = 0
@@ -483,8 +631,12 @@ class Runner:
         k = op["k"]
         if k == "raise":
             who = op["who"]
-            r = self.t_raiser if who == "t" else self.ts_raiser[int(who[-1])]
+            r = self.t_raiser if who == "t" else self.t_raiser2 if who == "t2" else self.ts_raiser[int(who[-1])]
             r.on = bool(op["on"])
+            r.what = op.get("what", "all")  # the callback kind it raises from
+            r.exc = op.get("exc", "boom")  # the exception it raises
+            if r.what not in RAISE_WHAT or r.exc not in RAISE_EXC:
+                raise HarnessError(f"unknown raiser configuration {op}")
             return
         if k == "inbound":
             self.inbound = int(op.get("salt", 0)) if op["on"] else None
@@ -559,6 +711,8 @@ class Runner:
             self.pdus[ts].append((type(d).__name__, bytes(d.data).hex()))
         elif k == "vhdr":
             self.headers[ts].append(("voice", _bits01(d), idx))
+        if op.get("flco") in RARE_FLCOS or "bits" in op:
+            self.rare.add(_bits01(d))
         in_voice = self.cur_kind[ts] == "voice"
 
         n0 = len(self.ts_rec0[ts].events)
@@ -593,8 +747,10 @@ class Runner:
                 ended_in_call, started_after_end = True, False
                 self.cur_kind[ts] = None
                 self.stats["ended_" + kind] += 1
-                if self.t_raiser.on or self.ts_raiser[ts].on:
+                if self.t_raiser.on or self.t_raiser2.on or self.ts_raiser[ts].on:
                     self.stats["ended_with_raiser_on"] += 1
+                if self.rare and (_bits01(ev[1]) in self.rare or any(_bits01(b) in self.rare for b in ev[2] if isinstance(b, (L["CSBK"], L["DataHeader"])))):
+                    self.stats["ended_with_rare_pdu_variant"] += 1
 
         # I4
         slot = self.term.timeslots[ts]
@@ -753,7 +909,7 @@ class Runner:
         s = self.stats
         out = []
         for key in ("ended_voice", "ended_data", "interruptions", "full_superframe_wrap", "seq_wrap", "ended_with_raiser_on", "restart_checked", "ended_then_started_same_call",
-                    "voice_ended_with_blocks", "started_idle"):
+                    "voice_ended_with_blocks", "started_idle", "ended_with_rare_pdu_variant"):
             if s[key]:
                 out.append("history_with_" + key)
         if s["labels_checked"] >= 6:
@@ -768,6 +924,15 @@ class Runner:
             out.append("history_with_timeslot_raiser_fired")
         if self.t_raiser.fired:
             out.append("history_with_terminal_raiser_fired")
+        if self.t_raiser2.fired:
+            out.append("history_with_terminal_raiser_behind_recorder_fired")
+        raisers = [self.t_raiser, self.t_raiser2] + list(self.ts_raiser.values())
+        for what in sorted({w for r in raisers for w in r.fired_in}):
+            out.append("history_with_raiser_fired_in_" + what)
+        if any(r.fired and r.what != "all" for r in raisers):
+            out.append("history_with_raiser_of_one_callback_kind_fired")
+        if any(r.fired and r.exc != "boom" for r in raisers):
+            out.append("history_with_raiser_other_exception_type_fired")
         if not (s["ended_voice"] or s["ended_data"]):
             out.append("history_without_any_ended")
         if self.n_skipped:
@@ -802,21 +967,32 @@ def _strategies():
     def d(**kw):
         return st.fixed_dictionaries({k: (v if hasattr(v, "map") else st.just(v)) for k, v in kw.items()})
 
-    vhdr = d(k="vhdr", ts=ts, cc=cc, flco=st.sampled_from(["group", "unit"]), so=st.sampled_from([0, 0x80, 0x40, 0xFF, 0x13]), pf=st.integers(0, 1), crc=st.integers(0, 0xFFFFFF), x=x)
-    term = d(k="term", ts=ts, cc=cc, flco=st.sampled_from(["group", "unit"]), so=st.just(0), pf=st.just(0), crc=st.integers(0, 0xFFFFFF), x=x)
+    pool = raw_pdu_pool()
+    # Full LC of a voice LC header / terminator: group and unit-to-unit (half of the draws), GPS info, talker alias header /
+    # blocks 1-3 with arbitrary octets (text in the four alias encodings incl. octets >= 0x80, fills, random)
+    flco = st.sampled_from(["group", "unit"] * 3 + ALL_FLCOS)
+    lc = st.one_of(st.sampled_from(LC_OCTETS), st.lists(octet, min_size=7, max_size=7).map(lambda l: bytes(l).hex()))
+    vhdr = d(k="vhdr", ts=ts, cc=cc, flco=flco, lc=lc, so=st.sampled_from([0, 0x80, 0x40, 0xFF, 0x13]), pf=st.integers(0, 1), crc=st.integers(0, 0xFFFFFF), x=x)
+    term = d(k="term", ts=ts, cc=cc, flco=flco, lc=lc, so=st.just(0), pf=st.just(0), crc=st.integers(0, 0xFFFFFF), x=x)
     vsync = d(k="vsync", ts=ts, sync=st.sampled_from(VOICE_SYNCS), x=x)
     vemb = d(k="vemb", ts=ts, cc=cc, pi=st.integers(0, 1), lcss=st.integers(0, 3), e32=st.one_of(st.just(0), st.integers(0, 2**32 - 1)), x=x)
     dhdr = d(k="dhdr", ts=ts, cc=cc, fmt=st.sampled_from(HDR_FORMATS + ["confirmed", "unconfirmed"]), btf=btf, a=st.booleans(), sap=st.sampled_from(SAPS + ["UDP_IP_compression"] * 3),
              poc=st.sampled_from([0, 1, 6, 31]), x=x)
     pre = d(k="pre", ts=ts, cc=cc, btf=st.one_of(st.integers(0, 4), st.integers(0, 8), st.just(255)), x=x)
     csbk = d(k="csbk", ts=ts, cc=cc, op=st.sampled_from(CSBK_KINDS), x=x)
+    if pool["csbk"]:  # rare variants: every CSBK opcode the parser accepts, arbitrary field octets
+        csbk = st.one_of(csbk, d(k="csbk", ts=ts, cc=cc, bits=st.sampled_from([b for b, _ in pool["csbk"]]), x=x))
+    if pool["dhdr"]:
+        dhdr = st.one_of(dhdr, dhdr, dhdr, st.tuples(ts, cc, st.sampled_from(pool["dhdr"]), st.one_of(st.none(), st.integers(0, 3)), x).map(
+            lambda p: {"k": "dhdr", "ts": p[0], "cc": p[1], "bits": raw_header_with_btf(p[2][0], p[2][1], p[3]), "x": p[4]}))
 
     def data_for(rate):
         return d(k="data", ts=ts, cc=cc, rate=rate, hex=st.lists(octet, min_size=RATES[rate], max_size=RATES[rate]).map(lambda l: bytes(l).hex()))
 
     data = st.sampled_from(["1/2", "1/2", "3/4", "1"]).flatmap(data_for)
-    toggle = st.one_of(d(k="raise", who=st.sampled_from(["t", "ts1", "ts2"]), on=st.booleans()), d(k="raise", who=st.sampled_from(["t", "ts1", "ts2"]), on=st.booleans()),
-                       d(k="inbound", on=st.booleans(), salt=st.integers(0, 1000)))
+    raise_toggle = d(k="raise", who=st.sampled_from(["t", "t", "t2", "ts1", "ts1", "ts2"]), on=st.sampled_from([True, True, False]), what=st.sampled_from(["all"] * 3 + RAISE_WHAT),
+                     exc=st.sampled_from(["boom"] * 3 + RAISE_EXC))
+    toggle = st.one_of(raise_toggle, raise_toggle, d(k="inbound", on=st.booleans(), salt=st.integers(0, 1000)))
     near = st.tuples(ts, x, st.sampled_from(near_sync_emb_fields())).map(lambda p: {"k": "vemb", "ts": p[0], "x": p[1], **p[2][0]})
     repeat = st.tuples(st.one_of(vemb, vhdr, vsync, term, dhdr, pre, csbk, data, near), st.one_of(st.integers(2, 12), st.integers(2, 12), st.sampled_from(REPEAT_COUNTS)), st.booleans()).map(
         lambda p: {**p[0], "rep": p[1], "same": p[2]})
@@ -833,8 +1009,12 @@ def _strategies():
         conf = draw(st.booleans())
         xx = draw(x)
         ops = [{"k": "pre", "ts": t, "cc": c, "btf": n + 1 + (npre - 1 - i), "x": xx} for i in range(npre)]
-        ops.append({"k": "dhdr", "ts": t, "cc": c, "fmt": "confirmed" if conf else draw(st.sampled_from(["unconfirmed", "short_defined", "response"])), "btf": n, "a": conf,
-                    "sap": draw(st.sampled_from(SAPS)), "poc": draw(st.sampled_from([0, 3])), "x": xx})
+        rare = [p for p in pool["dhdr"] if p[1] in BTF_AT_65]
+        if rare and draw(st.integers(0, 3)) == 0:
+            ops.append({"k": "dhdr", "ts": t, "cc": c, "bits": raw_header_with_btf(*draw(st.sampled_from(rare)), n), "x": xx})
+        else:
+            ops.append({"k": "dhdr", "ts": t, "cc": c, "fmt": "confirmed" if conf else draw(st.sampled_from(["unconfirmed", "short_defined", "response"])), "btf": n, "a": conf,
+                        "sap": draw(st.sampled_from(SAPS)), "poc": draw(st.sampled_from([0, 3])), "x": xx})
         for _ in range(n):
             ops.append(draw(data_for(rate).map(lambda o: {**o, "ts": t, "cc": c})))
         cut = draw(st.sampled_from([0, 0, 0, 1, 2]))  # truncated calls
@@ -844,7 +1024,7 @@ def _strategies():
     def voice_call(draw):
         t, c = draw(ts), draw(cc)
         xx = draw(x)
-        hdr = {"k": "vhdr", "ts": t, "cc": c, "flco": draw(st.sampled_from(["group", "unit"])), "so": 0, "pf": 0, "crc": draw(st.integers(0, 0xFFFFFF)), "x": xx}
+        hdr = {"k": "vhdr", "ts": t, "cc": c, "flco": draw(flco), "lc": draw(lc), "so": 0, "pf": 0, "crc": draw(st.integers(0, 0xFFFFFF)), "x": xx}
         ops = [hdr] * draw(st.sampled_from([1, 1, 2]))
         frames = draw(st.integers(0, 3))
         for f in range(frames):
@@ -930,7 +1110,7 @@ def minimise(ops, clause, klass, budget=600):
             else:
                 i += chunk
         chunk //= 2
-    simple = {"rep": 1, "same": False, "salt": 0, "ts": 1, "cc": 1, "x": 0, "crc": 0, "so": 0, "pf": 0, "e32": 0, "pi": 0, "lcss": 0, "poc": 0, "flco": "group", "sync": "BsSourcedVoice"}
+    simple = {"rep": 1, "same": False, "salt": 0, "ts": 1, "cc": 1, "x": 0, "crc": 0, "so": 0, "pf": 0, "e32": 0, "pi": 0, "lcss": 0, "poc": 0, "flco": "group", "sync": "BsSourcedVoice", "what": "all", "exc": "boom", "lc": "00" * 7}
     for i in range(len(ops)):
         for key, val in simple.items():
             if key in ops[i] and ops[i][key] != val:
@@ -1312,6 +1492,8 @@ def _repeat_histories():
         "dhdr_response": {**hdr1, "fmt": "response", "btf": 2}, "dhdr_short_defined": {**hdr1, "fmt": "short_defined", "btf": 3}, "dhdr_udt": {**hdr1, "fmt": "udt", "btf": 1},
         "pre": {"k": "pre", "ts": ts, "cc": 1, "btf": 4, "x": 13}, "pre_btf0": {"k": "pre", "ts": ts, "cc": 1, "btf": 0, "x": 13}, "csbk": {"k": "csbk", "ts": ts, "cc": 1, "op": "aloha", "x": 14},
         "data_1/2": blk, "data_3/4": {**blk, "rate": "3/4", "hex": "00" * 18}, "data_1": {**blk, "rate": "1", "hex": "ff" * 24},
+        "vhdr_talker_alias": {**vh, "flco": "ta_hdr", "lc": LC_OCTETS[1]}, "term_talker_alias_block": {**vh, "k": "term", "flco": "ta_b1", "lc": LC_OCTETS[3]},
+        "vhdr_gps": {**vh, "flco": "gps", "lc": "ff" * 7},
     }
     modes = {
         "idle": [],
@@ -1356,12 +1538,184 @@ def drv_repeats(ctx: Ctx, sub: SubCheck):
     ctx.tally.notes.append("repeats: every burst class x300 in every tracker mode, and 2-3 op blocks repeated N times (N up to 300); identical in both tiers")
 
 
+# ---------------------------------------------------------------------------------------------- directed: raising observers x rare PDU variants
+
+RAISER_CONFIGS = [
+    ("terminal_raiser_before_recorder_all", []),  # the default of every runner
+    ("no_raiser", [("t", False, "all")]),
+    ("terminal_raiser_before_recorder_started", [("t", True, "started")]),
+    ("terminal_raiser_before_recorder_data_ended", [("t", True, "data_ended")]),
+    ("terminal_raiser_before_recorder_voice_ended", [("t", True, "voice_ended")]),
+    ("terminal_raiser_behind_recorder_all", [("t", False, "all"), ("t2", True, "all")]),
+    ("terminal_raiser_behind_recorder_voice_ended", [("t", False, "all"), ("t2", True, "voice_ended")]),
+    ("terminal_raiser_behind_recorder_data_ended", [("t", False, "all"), ("t2", True, "data_ended")]),
+    ("timeslot_raiser_all", [("t", False, "all"), ("ts", True, "all")]),
+    ("timeslot_raiser_started", [("t", False, "all"), ("ts", True, "started")]),
+    ("timeslot_raiser_voice_ended", [("t", False, "all"), ("ts", True, "voice_ended")]),
+    ("timeslot_raiser_data_ended", [("t", False, "all"), ("ts", True, "data_ended")]),
+    ("all_raisers_all", [("t2", True, "all"), ("ts", True, "all")]),
+]
+
+
+def _raiser_histories():
+    """Every rare variant of a header / block PDU (Full LC: 7 opcodes x 14 octet patterns in a voice LC header and in the
+    terminator; data header: the 5 library-built formats and the raw pool; CSBK: the raw pool = every opcode the parser
+    accepts) is delivered in an 'ended' notification - voice: header, sync, EMB, EMB, terminator; data header: preamble,
+    header, block, then a voice header that interrupts (ends) the data transmission; CSBK: the CSBK, a header with one block
+    to follow, the block - under each of the 13 raiser configurations (raising observer registered before / behind the
+    recording one at terminal level, between two recorders at timeslot level; raising from every callback or from one callback
+    kind only; 7 exception types rotating), followed by a complete ordinary voice call and a complete ordinary data call on the
+    same timeslot, so that 'later events', the restart of the numbering and idle / fresh stream id are judged as well."""
+    pool = raw_pdu_pool()
+    variants = []
+    for f in ALL_FLCOS:
+        for i, octs in enumerate(LC_OCTETS if f in RARE_FLCOS else LC_OCTETS[:1]):
+            variants.append(("lc_" + f, {"flco": f, "lc": octs, "so": 0, "pf": i % 2, "crc": 0x010203 * i, "x": 5 + i}))
+    for i, fmt in enumerate(HDR_FORMATS):
+        variants.append(("dhdr_" + fmt, {"k": "dhdr", "cc": 1, "fmt": fmt, "btf": 2, "a": fmt == "confirmed", "sap": SAPS[i % len(SAPS)], "poc": 0, "x": 40 + i}))
+    for i, (bits, name) in enumerate(pool["dhdr"]):
+        variants.append(("dhdr_raw_" + name, {"k": "dhdr", "cc": 1, "bits": raw_header_with_btf(bits, name, (None, 2, 1, 0)[i % 4]), "x": i}))
+    for i, (bits, name) in enumerate(pool["csbk"]):
+        variants.append(("csbk_raw_" + name, {"k": "csbk", "cc": 1, "bits": bits, "x": i}))
+    out = []
+    n = 0
+    for vname, v in variants:
+        for ci, (cname, toggles) in enumerate(RAISER_CONFIGS):
+            n += 1
+            ts = 1 + n % 2
+            exc = RAISE_EXC[(n // 2) % len(RAISE_EXC)]
+            ops = [INBOUND_ON] if n % 3 == 0 else []
+            ops += [{"k": "raise", "who": (f"ts{ts}" if who == "ts" else who), "on": on, "what": what, "exc": exc} for who, on, what in toggles]
+            if not toggles and exc != "boom":
+                ops.append({"k": "raise", "who": "t", "on": True, "what": "all", "exc": exc})
+            vh = {"k": "vhdr", "ts": ts, "cc": 1, "flco": "group", "so": 0, "pf": 0, "crc": 0, "x": 5}
+            sync = {"k": "vsync", "ts": ts, "sync": VOICE_SYNCS[n % 4], "x": 1}
+            emb = {"k": "vemb", "ts": ts, "cc": 1, "pi": 0, "lcss": 0, "e32": 0x12345678, "x": 2}
+            hdr1 = {"k": "dhdr", "ts": ts, "cc": 1, "fmt": "unconfirmed", "btf": 1, "a": False, "sap": "IP_PacketData", "poc": 0, "x": 9}
+            blk = {"k": "data", "ts": ts, "cc": 1, "rate": "1/2", "hex": "5a" * 12}
+            if vname.startswith("lc_"):
+                ops += [{"k": "vhdr", "ts": ts, "cc": 1, **v}, sync, emb, {**emb, "x": 3}, {"k": "term", "ts": ts, "cc": 1, **v}]
+            elif vname.startswith("dhdr_"):
+                ops += [{"k": "pre", "ts": ts, "cc": 1, "btf": 3, "x": 13}, {**v, "ts": ts}, blk, vh]
+            else:
+                ops += [{**v, "ts": ts}, hdr1, blk]
+            ops += [vh, sync, emb, {**vh, "k": "term"}, hdr1, blk, emb]
+            out.append(({"ops": ops}, vname, cname, "exception_" + exc))
+    return out
+
+
+def drv_raisers(ctx: Ctx, sub: SubCheck):
+    note_shim(ctx)
+    items = _raiser_histories()
+    chunks = [items[i::64] for i in range(64)]
+
+    def work(chunk, t: Tally):
+        for j, (case, vname, cname, ename) in enumerate(chunk):
+            r = _judge_history(ctx, sub.name, case, t)
+            t.case(sub.name, nontrivial=r.nontrivial(), cls="variant_" + vname)
+            t.cls(sub.name, "config_" + cname)
+            t.cls(sub.name, ename)
+            for c in r.classes():
+                if "raiser" in c or "rare" in c or "ended_voice" in c or "ended_data" in c or "skipped" in c:
+                    t.cls(sub.name, c)
+            if j == 0:
+                t.sample(sub.name, case)
+
+    ctx.shards(work, [c for c in chunks if c])
+    pool = raw_pdu_pool()
+    ctx.tally.extra["raw_pdu_pool"] = {"csbk_opcodes": sorted({n for _, n in pool["csbk"]}), "data_header_formats": sorted({n for _, n in pool["dhdr"]})}
+    ctx.tally.notes.append("raising_observers: every rare header / block variant x 13 raiser configurations, ended delivered with that variant, then ordinary calls; identical in both tiers")
+
+
+# ---------------------------------------------------------------------------------------------- preludes (stimulus only)
+
+
+def _prelude_bursts(a):
+    L = _Lib.get()
+    out = []
+    for op in (a or {}).get("ops", [])[:40]:
+        if op.get("k") not in BURST_KINDS:
+            continue
+        try:
+            raw, btype = build_burst(op)
+            out.append((op, L["Burst"].from_bytes(raw, burst_type=L["BurstTypes"][btype])))
+        except Exception:
+            pass
+    return out
+
+
+def _op_reprs(a):
+    """repr / str / debug of the history's bursts and PDUs (the diagnostic siblings of the parse)"""
+    for _, b in _prelude_bursts(a):
+        for f in (repr, str, lambda o: o.debug(False) if hasattr(o, "debug") else None):
+            for o in (b, b.data, getattr(b, "slot_type", None), getattr(b, "embedded_signalling", None)):
+                try:
+                    f(o)
+                except Exception:
+                    pass
+
+
+def _op_other_terminal(a):
+    """the same bursts through another terminal whose only observer raises from every callback; left mid-transmission"""
+    L = _Lib.get()
+    term = L["Terminal"](2306, [L["Raiser"]("prelude-raiser", True)])
+    for op, b in _prelude_bursts(a):
+        try:
+            term.process_incoming_burst(b, op.get("ts", 1))
+        except Exception:
+            pass
+    try:
+        term.debug(False)
+    except Exception:
+        pass
+
+
+def _op_watcher(a):
+    """the same bursts through a TransmissionWatcher (sibling entry point that creates terminals per target id), then
+    end_all_transmissions with a raising observer registered"""
+    L = _Lib.get()
+    from okdmr.dmrlib.transmission.transmission_watcher import TransmissionWatcher
+
+    w = TransmissionWatcher([L["Raiser"]("prelude-watcher-raiser", True), L["Recorder"]("prelude-watcher-recorder")])
+    for i, (op, b) in enumerate(_prelude_bursts(a)):
+        try:
+            b.target_radio_id = 2307 + i % 2
+            b.timeslot = op.get("ts", 1)
+            w.process_burst(b)
+        except Exception:
+            pass
+    try:
+        w.end_all_transmissions()
+    except Exception:
+        pass
+
+
+PRELUDE_OPS = {"reprs": _op_reprs, "other_terminal": _op_other_terminal, "watcher": _op_watcher}
+
+
+def prelude_for(sub, case, rng):
+    """sibling uses of the history's own bursts between the two judgements: their repr / str / debug, another terminal (only
+    observer raises) left mid-transmission, a TransmissionWatcher ended by end_all_transmissions.  The bursts are the first 12,
+    a random window of 12 and the last 12 burst ops of the history (repeat counts dropped)."""
+    ops = [{k: v for k, v in op.items() if k not in ("rep", "same")} for op in (case or {}).get("ops", []) if isinstance(op, dict) and op.get("k") in BURST_KINDS]
+    if not ops:
+        return []
+    lo = rng.randrange(len(ops))
+    pick = (ops[:12] + ops[lo : lo + 12] + ops[-12:])[:36]
+    names = ["reprs", "other_terminal", "watcher"]
+    rng.shuffle(names)
+    return [{"x": n, "a": {"ops": pick}} for n in names]
+
+
+PRELUDE_GROUPS = ("burst", "pdu", "bptc")
+
 SUBCHECKS = [
     SubCheck("short_histories", oracle_history, drv_exhaustive, "all sequences up to length 4 (quick) / 5 (thorough) over an 11-burst reduced alphabet, invariants I1..I7 after every burst"),
     SubCheck("short_data_boundary", oracle_history, drv_boundary, "directed: header + 1..2 blocks, 3 SAPs x 2 modes x rates x both timeslots, first six user-data octets from {00,01,7F,80,81,FF} on two positions at a time ((3,4) complete), I1..I7"),
     SubCheck("long_runs", oracle_history, drv_long_runs, "directed: >= 2 x 256 bursts on one timeslot without an ended (voice: separate ops / re-parsed / same Burst object; data: CSBK run), pristine and with inbound numbering, then end + second call"),
     SubCheck("near_sync", oracle_history, drv_near_sync, "directed: valid EMB bursts whose 48 centre bits are at Hamming distance 1..3 from each of the 10 SYNC words, at every position B..F of a superframe; labels per the model (only an exact SYNC starts a superframe)"),
     SubCheck("repeats", oracle_history, drv_repeats, "directed: each of 16 burst classes repeated 300 times in each of 4 tracker modes (idle, voice, data with / without header), and 2-3 op blocks repeated N times (N in {2..12,16,17,31..33,64,100,128,255..257,300}), then a fixed tail of complete calls"),
+    SubCheck("raising_observers", oracle_history, drv_raisers, "directed: every rare header / block variant (Full LC with each of the 7 parseable opcodes incl. GPS info and talker alias header / blocks with 14 octet patterns, each data header format built and raw, every CSBK opcode the parser accepts) handed over by an ended notification under 13 raiser configurations (raising observer before / behind the recorder at terminal level, between recorders at timeslot level; raising from all callbacks or one kind; 7 exception types), then ordinary calls; I1..I7"),
     SubCheck("machine", oracle_history, drv_machine, "Hypothesis RuleBasedStateMachine over the full alphabet with generated fields, scripted prefixes, raiser toggles"),
 ]
 PREDICATES = {}
